@@ -290,3 +290,54 @@ void h_eval_boundary_fn(void)
   COVER(r && fsel == 1 && !has_next); COVER(!r && na == 0 && fsel == 0); COVER(!r && na == 2); COVER(r && fsel == 0);
   WITNESS_END();
 }
+
+/* ---------------------------------------------------------------------------------------------------------------
+   variable_suppression::suppresses_variable (real, complete) on a REAL variable_suppression configured through the real
+   setters (which of the 10 properties are present is symbolic), against an opaque variable whose qualified name, type
+   name and symbol (name, version, or no symbol at all) are harness strings; regcomp/regexec as for h_fn_suppr. */
+static u64 var_obj[4]; static void *var_vt[8];
+void *_ZNK7abigail2ir8var_decl10get_symbolEv(void *v) { sym_sp.p = has_sym ? (void *)sym_obj : 0; sym_sp.c = 0; return &sym_sp; }
+void h_var_suppr(void)
+{
+  fs_mode = 1;
+  _Bool cfg[10]; for (int i = 0; i < 10; i++) cfg[i] = nondet_bool();
+  u32 ck = nondet_u32(), k = nondet_u32(); __CPROVER_assume(ck <= 7 && k <= 7 && k != 0);
+  _Bool name_same = nondet_bool(), symname_same = nondet_bool(), type_same = nondet_bool();
+  u32 ver_kind = nondet_u32(); __CPROVER_assume(ver_kind < 3);
+  has_sym = nondet_bool();
+  for (int i = 0; i < 6; i++) { fs_compile_ok[i] = nondet_bool(); fs_compiled[i] = 0; for (int j = 0; j < 10; j++) fs_match[i][j] = nondet_bool(); }
+  vs_make(&fn_qname, name_same ? "f" : "g"); fn_qname_i.raw = &fn_qname;
+  vs_make(&ret_tname, type_same ? "int" : "long"); ret_tname_i.raw = &ret_tname;
+  vs_make(&sym_name, symname_same ? "f" : "h"); vs_make(&sym_version, ver_kind == 0 ? "1" : ver_kind == 1 ? "2" : "");
+  var_vt[0] = 0; var_vt[3 + 2] = (void *)qn_fn; var_obj[0] = (u64)&var_vt[3];
+  rett_vt[0] = 0; rett_vt[3 + 9] = (void *)qn_rett; rett_obj[0] = (u64)&rett_vt[3];
+  ncompiled = 0;
+  void *s = w_vs_new((void *)cfg, ck);
+  u8 r = w_vs_suppresses(s, (void *)var_obj, k);
+  /* what the variable looks like to the section (a variable without symbol has an empty symbol name and version) */
+  int sname_eq = has_sym && symname_same, sver_eq = has_sym && ver_kind == 0;
+  int ns = name_same ? 0 : 1, ss = !has_sym ? 9 : symname_same ? 0 : 2, vs = (!has_sym || ver_kind == 2) ? 9 : ver_kind == 0 ? 3 : 4, ts = type_same ? 7 : 8;
+  PROP((ck & k) != 0 || !r, "C23-var-change-kind-limits: a variable suppression never hides a kind of change its change_kind does not name");
+  if (cfg[0] && !name_same) PROP(!r, "C22-var-name-mismatch: a variable whose name differs from the section's name is not suppressed");
+  if (!cfg[0] && cfg[1] && fs_compile_ok[0] && !fs_match[0][ns]) PROP(!r, "C22-var-name-regexp-mismatch");
+  if (!cfg[0] && cfg[2] && fs_compile_ok[1] && fs_match[1][ns]) PROP(!r, "C22-var-name-not-regexp-match");
+  if (cfg[3] && !sname_eq) PROP(!r, "C22-var-symbol-name-mismatch: a variable whose symbol name differs from symbol_name (or that has no symbol) is not suppressed");
+  if (!cfg[3] && cfg[4] && fs_compile_ok[2] && !fs_match[2][ss]) PROP(!r, "C22-var-symbol-name-regexp-mismatch");
+  if (!cfg[3] && cfg[5] && fs_compile_ok[3] && fs_match[3][ss]) PROP(!r, "C22-var-symbol-name-not-regexp-match");
+  if (cfg[6] && !sver_eq) PROP(!r, "C22-var-symbol-version-mismatch: a variable whose symbol version differs from symbol_version (or is absent) is not suppressed");
+  if (!cfg[6] && cfg[7] && fs_compile_ok[4] && !fs_match[4][vs]) PROP(!r, "C22-var-symbol-version-regexp-mismatch");
+  if (cfg[8] && !type_same) PROP(!r, "C22-var-type-name-mismatch: a variable whose type name differs from type_name is not suppressed");
+  if (!cfg[8] && cfg[9] && fs_compile_ok[5] && !fs_match[5][ts]) PROP(!r, "C22-var-type-name-regexp-mismatch");
+  /* with every given pattern compiling, the verdict is exactly the conjunction of the constraints the section gives */
+  { int all_ok = 1; for (int i = 0; i < 6; i++) all_ok = all_ok && fs_compile_ok[i];
+    if (all_ok) {
+      int name_ok = cfg[0] ? name_same : ((!cfg[1] || fs_match[0][ns]) && (!cfg[2] || !fs_match[1][ns]));
+      int sym_ok = cfg[3] ? sname_eq : ((!cfg[4] || fs_match[2][ss]) && (!cfg[5] || !fs_match[3][ss]));
+      int ver_ok = cfg[6] ? sver_eq : (!cfg[7] || fs_match[4][vs]);
+      int type_ok = cfg[8] ? type_same : (!cfg[9] || fs_match[5][ts]);
+      PROP((r != 0) == ((ck & k) != 0 && name_ok && sym_ok && ver_ok && type_ok),
+           "C23-var-exactly-what-it-names: a [suppress_variable] section hides a variable change exactly when the change kind and every given name, symbol, version and type constraint are satisfied");
+    } }
+  COVER(r && cfg[0] && cfg[3] && cfg[6] && cfg[8]); COVER(!r && (ck & k)); COVER(r && !has_sym); COVER(r && cfg[2] && cfg[5]);
+  WITNESS_END();
+}
